@@ -64,7 +64,7 @@ class Adapter(object):
     self.xpool = pool
     self.xmap = {}
     self.xrev = {}
-    self.badcmd = rnd.choice([5, 9, 0xffff])
+    self.badcmd = rnd.choice([5, 9, 0xffff, 0x0100, 0x0103, 0xff01, 0x0204])    # (also: a valid command in the low byte only)
     self.badstat = rnd.choice([6, 7, 0x1234, 0xfffe])
     self.badtype = rnd.choice([22, 23, 100, 255])
     self.echo_b1 = rnd.randbytes(rnd.choice(ECHO_SIZES))
